@@ -1,7 +1,7 @@
 """The shared whole-file run: random edit histories on every well-formed sample of every kind, with the
 predicates of C01 C02 C03 C07 C08 C09 evaluated after each operation.  A check passes the set of property
 ids it is responsible for; only those predicates report violations."""
-import io, copy, os, struct, zlib
+import io, copy, os, struct, zlib, time
 import mutagen
 from . import kinds as KM
 from . import walkers as W
@@ -249,7 +249,7 @@ def c09_default_equivalence(ctx, checks, kind, sample, runner, st):
                {"info_padding": log[0][0], "delta": len(b1.getvalue()) - len(st.before)})
 
 
-def run_history(ctx, checks, kind, sample, data, hseed, nops, id3_opts=False, ops=None, core=None):
+def run_history(ctx, checks, kind, sample, data, hseed, nops, id3_opts=False, ops=None, core=None, corr=True):
     import random
     rng = random.Random(hseed)
     runner = Runner(kind, data, rng, id3_opts=id3_opts)
@@ -281,11 +281,13 @@ def run_history(ctx, checks, kind, sample, data, hseed, nops, id3_opts=False, op
         if st.exc:
             ctx.count("exc:" + st.exc[0])
         ok = evaluate(ctx, checks, kind, sample, runner, st, info0)
-        if ctx.use_model:
+        if ctx.use_model and corr:
             for cm in corr_modules():
                 if kind.name in cm.KINDS and (not getattr(cm, "PROPS", None) or set(cm.PROPS) & set(checks)):
                     try:
+                        _t0 = time.time()
                         cm.check_step(ctx, kind, st)
+                        ctx.hist["corr_seconds:" + cm.__name__] = round(ctx.hist.get("corr_seconds:" + cm.__name__, 0) + time.time() - _t0, 2)
                     except Exception as e:
                         import traceback
                         ctx.disagree("fam." + cm.__name__, "correspondence module crashed: %s" % type(e).__name__,
@@ -400,20 +402,23 @@ CORE = [
 ]
 
 
-def shared_run(ctx, checks, nhist, nops, kinds=None, id3_opts=True):
+def shared_run(ctx, checks, nhist, nops, kinds=None, id3_opts=True, corr_policy="all"):
+    """corr_policy: 'all' = the family correspondence modules run on every history; 'core' = only on the
+    deterministic core histories of the first two samples (and every synthetic layout) of each kind"""
     """the shared run restricted to the predicates in `checks`"""
     base = ctx.rng.randrange(1 << 30)
     n = 0
     for kname, kind in KINDS.items():
         if kinds and kname not in kinds:
             continue
-        for sample, data in usable_samples(kind):
+        for si, (sample, data) in enumerate(usable_samples(kind)):
             if "C07" in checks:
                 c07_scenario(ctx, checks, kind, sample, data)
             for h in range(-len(CORE), nhist):
+                corr = corr_policy == "all" or (h < 0 and (si < 2 or sample.startswith("synth") or sample.startswith("id3prefix")) and len(data) < 40000)
                 hseed = (base + zlib.crc32(repr((kname, sample, h)).encode())) & 0x7FFFFFFF
                 runner, nontrivial = run_history(ctx, checks, kind, sample, data, hseed, nops, id3_opts=id3_opts and h % 2 == 1,
-                                                 core=(-h - 1 if h < 0 else None))
+                                                 core=(-h - 1 if h < 0 else None), corr=corr)
                 n += 1
                 ctx.oracle_cases += 1
                 ctx.count("kind:" + kname)
